@@ -15,7 +15,8 @@ template <typename Base> static runner_t ref_runner(const std::string &name) {
   return [name](const vj::Value &h, std::ostream &o) {
     variable_factory_t vfac;
     Replayer<ref_t> rp(vfac, []() { return ref_t(Base()); });
-    rp.run(h, o, name);
+    rp.force_stutter = stutter_flag();
+    rp.run(h, o, name + (stutter_flag() ? "#s" : ""));
   };
 }
 static Registrar r1("ref_intervals", ref_runner<intervals_t>("ref_intervals"));
